@@ -1,12 +1,32 @@
 """C02 — the reader reports what the ELF specification says is in the file.
 
-Proof (Props/C02.lean): the generated struct layouts/constants equal the gABI tables, every
-section/program-header field the model's decoders return equals the specification codec at the
-specification offset (`shdr_fields_eq_spec`, `phdr_fields_eq_spec`, `ehdr_fields_eq_spec`), the
-generated membership test equals the specification's section-in-segment rule when no sum wraps
-(`member_eq_spec`), the bounded name lookup equals the specification's C-string (`name_eq_spec`),
-and the whole-load theorem `load_eq_spec` composing them over the loader's loops for every
-well-formed image (see the theorem list in the evidence for what is discharged in this run).
+Proof (Props/C02.lean, helper lemmas in Lemmas/LoadSpec.lean), for ALL images, no size bound other
+than `img.length < 2^63`:
+ * record level: the generated struct layouts/constants equal the gABI tables (`layouts_eq_spec`),
+   every header / section-header / program-header field decoder equals the specification codec at
+   the specification offset (`ehdr_fields_eq_spec`, `shdr_fields_eq_spec`, `phdr_fields_eq_spec`),
+   the generated membership test equals `Spec.inSegment` when no range end wraps (`member_eq_spec`);
+ * `WellFormedImage img` : decidable, written against Spec/Records.lean only (magic/class/data,
+   complete ELF header, entry sizes >= record sizes, every table record and every file-occupying
+   section / non-empty non-null segment range inside the file, e_shstrndx valid, no address/offset
+   range end reaches 2^64, names terminated inside the string table);
+ * per-record rungs `secLoad_wf`, `segLoad_wf` (header read succeeds, fields = decoded record,
+   eager data = file range + NUL, stream stays good);
+ * whole load `load_eq_spec` : WellFormedImage img -> for every start object without address
+   translation, both stream kinds, eager and lazy: `load` returns ok and (`LoadSpec`) the raw header
+   is the file's first bytes with all 13 getters = specification fields, section count = e_shnum,
+   every section's index + ten fields = `Spec.get (shdrL c) enc img (e_shoff + i*e_shentsize)`,
+   name = NUL-terminated string at sh_name in the section-name string table (`name_eq_cstr`),
+   data after get_data() on a stream in ANY position/error state = file range (empty for
+   NULL/NOBITS), the same for segments, and members j = (range e_shnum).filter Spec.inSegment.
+   Built as a ladder: `load_gate` (header) -> `loadSectionsLoop_inside`/`loadSections_inside`
+   (induction over the section loop) -> `loadNames_inside` (`cstrAt_eq_spec`, `resolveNames_eq`)
+   -> `loadSegmentsLoop_inside`/`loadSegs_inside` (induction over the segment loop) ->
+   `SegmentSpec_of_segFinal` (membership via `member_eq_spec`).  Nothing of the C02 statement is
+   left unproved; non-vacuity: a concrete 228-byte ELF32 image satisfies WellFormedImage (`decide`).
+ * not covered by proof (correspondence only): that Model/IStream.lean is libstdc++ and that
+   Model/Load.lean is ELFIO's loader (differential check below); images with an address
+   translation table (C15).
 Correspondence: harness/load.cpp vs Driver/Load.lean on encoder-built images (tools/elfspec.py,
 independent of ELFIO) and the bundled examples, eager and lazy, string- and file-backed streams.
 Oracle: tools/elfspec.decode (independent spec-level decoder).
@@ -18,7 +38,14 @@ FAMILY = "load"
 LEAN_MODULE = "ElfioVerif.Props.C02"
 THEOREMS = ["ElfioVerif.C02.layouts_eq_spec", "ElfioVerif.C02.shdr_fields_eq_spec",
             "ElfioVerif.C02.phdr_fields_eq_spec", "ElfioVerif.C02.ehdr_fields_eq_spec",
-            "ElfioVerif.C02.member_eq_spec"]
+            "ElfioVerif.C02.member_eq_spec",
+            "ElfioVerif.IStream.seekEnd_tellg", "ElfioVerif.IStream.seekg_ok_ls", "ElfioVerif.IStream.read_ok_ls",
+            "ElfioVerif.isolatedRead_ok",
+            "ElfioVerif.load_gate", "ElfioVerif.loadSectionsLoop_inside", "ElfioVerif.cstrAt_eq_spec",
+            "ElfioVerif.loadNames_inside", "ElfioVerif.loadSegmentsLoop_inside", "ElfioVerif.loadBody_inside",
+            "ElfioVerif.C02.secLoad_wf", "ElfioVerif.C02.segLoad_wf",
+            "ElfioVerif.C02.SectionSpec_of_SecSt", "ElfioVerif.C02.SegmentSpec_of_segFinal",
+            "ElfioVerif.C02.load_eq_spec", "ElfioVerif.C02.name_eq_cstr"]
 SITES = ["conv", "is_sect_in_seg", "load_s", "sec32_load", "sec64_load", "seg32_load", "seg64_load"]
 RULE = ("well-formed images from the independent encoder tools/elfspec.py (random models: 1-9 sections, 0-4 "
         "segments, full-width field values, arbitrary table placement/order/gaps, overlapping segments, entry "
